@@ -240,6 +240,12 @@ def check_other_plots(case, bad):
             return _o(X, Y, Z, *a, **k)
 
         ax.contour = spy
+        # other ways of drawing a gridded density are captured as well (a refactoring may switch to them)
+        for other in ("contourf", "pcolormesh"):
+            def spy2(X, Y, Z, *a, _o=getattr(ax, other), **k):
+                captured["XYZ"] = (np.array(X, dtype=float), np.array(Y, dtype=float), np.array(Z, dtype=float))
+                return _o(X, Y, Z, *a, **k)
+            setattr(ax, other, spy2)
         S = data[:200]
         try:
             plot_2D_isodensity(m, S, swap_axis=swap, limits=lim, levels=lev, ax=ax, n_grid_steps=40)
